@@ -371,6 +371,53 @@ func lowClock(res *core.Result, r *core.RNG) (*srv.World, error) {
 	return w, nil
 }
 
+// highClock: the clock in the last slots of the uint32 range (the window is placed there by a hook):
+// the acceptance comparison must not wrap around at either end.
+func highClock(res *core.Result, r *core.RNG) (*srv.World, error) {
+	w, err := srv.NewWorld(r, "highclock", 0)
+	if err != nil {
+		return nil, err
+	}
+	a, err := setupActors(w, r, 1)
+	if err != nil {
+		return w, err
+	}
+	d0 := a.Devices[0]
+	const off = uint32(4294963008) // a multiple of 2016; off+4032 = 2^32-256
+	w.SetOffset(off)
+	p := uint64(300)
+	for _, now := range []uint32{1<<32 - 1, 1<<32 - 2, 1<<32 - 432, 1<<32 - 433, 1<<32 - 700, off + 3600} {
+		w.SetNow(now)
+		try := func(ts uint32) {
+			p++
+			dg := a.report(w, d0, ts, p, d0.K)
+			snb := w.S.VerifSnapshot()
+			allowed, _ := c01Allowed(w, snb, dg, w.Now)
+			for _, sl := range snb.Reports[d0.ID] {
+				if snb.Offset+uint32(sl.Index) == ts && sl.Report.PowerOutput == 1 {
+					allowed = false // the slot is already banned: nothing more can change it
+				}
+			}
+			before := stateDigest(w)
+			deliver(res, w, dg, "highclock", false)
+			// every report here carries a fresh power value, so an acceptable one always leaves a trace
+			if allowed && before == stateDigest(w) {
+				res.Fail(fmt.Sprintf("an acceptable report (timeslot %d, clock %d: within 432 slots and inside the window) was refused: the acceptance comparison is not the mathematical one at the end of the 32-bit range", ts, w.Now),
+					"c20-acceptable-refused", map[string]interface{}{"history": w.Desc})
+			}
+		}
+		for _, ts := range []uint32{now, now - 1, now - 432, now - 433, off + 4031, off + 4030, off, off + 2016} {
+			try(ts)
+		}
+		if uint64(now)+432 < 1<<32 {
+			try(now + 432)
+		}
+	}
+	w.SetNow(off + 100) // no rotation may be due when the server shuts down
+	w.SnapHop()
+	return w, nil
+}
+
 func randomHistory(res *core.Result, r *core.RNG, tier string) (*srv.World, error) {
 	// clock/offset configuration
 	k := r.Intn(3) // rotations at start-up
@@ -563,6 +610,14 @@ func reportsWorker(res *core.Result, r *core.RNG, tier, out string) error {
 			return err
 		}
 		finishWorld(res, w, &items)
+		w, err = highClock(res, r)
+		if err != nil {
+			if w != nil {
+				w.Close()
+			}
+			return err
+		}
+		finishWorld(res, w, &items)
 	}
 	for i := 0; i < n; i++ {
 		w, err := randomHistory(res, r.Fork(), tier)
@@ -577,7 +632,7 @@ func reportsWorker(res *core.Result, r *core.RNG, tier, out string) error {
 	res.Required = []string{"dgram.now+432", "dgram.now+433", "dgram.now-432", "dgram.now-433", "dgram.power0", "dgram.power1", "dgram.power2",
 		"dgram.short79", "dgram.long-valid-prefix", "dgram.signed-by-other-device", "dgram.signed-by-gca", "dgram.signed-by-server", "dgram.unknown-id",
 		"dgram.banned-device", "dgram.bitflip", "dgram.field-swap", "dgram.window-start-1", "dgram.window-start", "dgram.window-end-1", "dgram.window-end",
-		"dgram.lowclock-ts0", "dgram.malleated-twin", "outcome.changed"}
+		"dgram.lowclock-ts0", "dgram.highclock", "dgram.malleated-twin", "outcome.changed"}
 	res.Rule = "per history: clock/offset configuration from the boundary table, 1-4 authorized devices, 20-60 datagrams (60% valid-shaped at boundary timeslots/powers, 40% hostile: random bytes, bit flips, truncations, extensions, re-signings under every other key, field swaps), plus a scripted boundary tour; non-trivial = at least one state-changing operation and one ignored datagram; distinct by full history"
 	_ = bytes.Equal
 	return writeServerCases(res, out, "reports", items)
